@@ -598,6 +598,7 @@ func formList(m map[string]bool) []string {
 
 // verifyState: the replica's (pre)committed state is the primary's state at those ids.
 func (h *harness) verifyState(r *replica, when string) rstate {
+	h.settle(r)
 	s := r.state()
 	limit := h.p.n()
 	if r.forgedAt > 0 {
@@ -613,7 +614,11 @@ func (h *harness) verifyState(r *replica, when string) rstate {
 		h.failf(r, nil, "%s: CommittedAlh=(%d,%x), the primary's Alh of tx %d is %x", when, s.c, s.calh, s.c, h.p.alhOf(s.c))
 	}
 	if s.p <= limit && s.palh != h.p.alhOf(s.p) {
-		h.failf(r, nil, "%s: PrecommittedAlh=(%d,%x), the primary's Alh of tx %d is %x", when, s.p, s.palh, s.p, h.p.alhOf(s.p))
+		diff := ""
+		if hdr, err := r.st.ReadTxHeader(s.p, true, false); err == nil {
+			diff = fmt.Sprintf("; the stored tx %d differs from the primary's in: %s (replica header %+v)", s.p, hdrDiff(hdr, h.p.txs[s.p-1].hdr), hdr)
+		}
+		h.failf(r, nil, "%s: PrecommittedAlh=(%d,%x), the primary's Alh of tx %d is %x%s", when, s.p, s.palh, s.p, h.p.alhOf(s.p), diff)
 	}
 	if r.forgedAt == 0 && s.p > h.p.n() {
 		h.failf(r, nil, "%s: the replica holds %d transactions, the primary only %d", when, s.p, h.p.n())
@@ -873,7 +878,14 @@ func (h *harness) settle(r *replica) {
 		last := r.st.LastPrecommittedTxID()
 		p, _ := r.st.PrecommittedAlh()
 		c, _ := r.st.CommittedAlh()
-		if p == last && (c == last || r.cfg.ExternalAllow) {
+		target := last
+		if r.cfg.ExternalAllow {
+			target = r.allowed
+			if target > last {
+				target = last
+			}
+		}
+		if p == last && c >= target {
 			return
 		}
 		if time.Now().After(deadline) {
@@ -1038,6 +1050,15 @@ func (h *harness) stepReopen(r *replica) {
 		r.refused++
 		r.pendingRefusal = true
 	}
+	if after.p == 0 && before.p > 0 && vk.Excluded(kfStaleBl) {
+		// known finding K7e: the store is back at the empty history with used tx holders: tx 1 would now be stored with
+		// a stale BlRoot (here: bytes of the values block the recovery tried to read as a header)
+		vk.CountExcluded(kfStaleBl)
+		r.retired = true
+		r.forgedAt = 0
+		h.c.Label("replica-retired-(" + kfStaleBl + ")")
+		return
+	}
 	if r.discardsSinceOpen > 0 {
 		// what is found after the committed transactions may be what was precommitted before a discard
 		for id := after.c + 1; id <= after.p; id++ {
@@ -1074,6 +1095,7 @@ func (h *harness) stepReopen(r *replica) {
 		if _, err := r.st.DiscardPrecommittedTxsSince(id); err != nil {
 			h.failf(r, nil, "after reopen: DiscardPrecommittedTxsSince(%d): %v", id, err)
 		}
+		r.discardsSinceOpen++
 		for j := id; j <= after.p; j++ {
 			delete(r.forms, j)
 		}
@@ -1208,6 +1230,150 @@ func (h *harness) stepAltered(r *replica) {
 	r.forgedAt = after.p
 	delete(r.forms, after.p)
 	h.divergenceEpilogue(r, after)
+}
+
+// stepAlteredRace delivers the honest export of the next transaction and altered versions of it at the same time.
+func (h *harness) stepAlteredRace(r *replica) {
+	rt := h.rt
+	before := h.verifyState(r, "before altered race")
+	N := h.p.n()
+	if before.p >= N {
+		return
+	}
+	id := before.p + 1
+	t := h.p.txs[id-1]
+	base, x, form := t.full, t.x, "full"
+	if t.digest != nil && rapid.Bool().Draw(rt, "altDigestBase") {
+		base, x, form = t.digest, t.dx, "digest"
+	}
+	skip := rapid.IntRange(0, 4).Draw(rt, "altSkipIntegrity") == 0
+	nAlt := rapid.IntRange(1, 3).Draw(rt, "altCopies")
+	var alts []alteration
+	unbound := false
+	for i := 0; i < nAlt; i++ {
+		a := alter(rt, x, base, h.p)
+		if a.class == altUnbound && vk.Excluded(kfUnbound) && rapid.IntRange(0, 2).Draw(rt, "keepUnbound") != 0 {
+			vk.CountExcluded(kfUnbound)
+			continue
+		}
+		if a.class == altUnbound {
+			unbound = true
+		}
+		alts = append(alts, a)
+	}
+	if len(alts) == 0 {
+		return
+	}
+	desc := fmt.Sprintf("R%d:race(tx%d %s skip=%v", r.i, id, form, skip)
+	for _, a := range alts {
+		desc += " | " + a.desc
+		h.c.Label("alt-" + strings.SplitN(a.desc, ":", 2)[0])
+	}
+	desc += ")"
+	h.c.Descf("%s", desc)
+	type out struct {
+		hdr      *store.TxHeader
+		err      error
+		panicked bool
+	}
+	res := make([]out, len(alts)+1)
+	var wg sync.WaitGroup
+	for i := range res {
+		wg.Add(1)
+		go func(i int) {
+			defer wg.Done()
+			blob, sk, timeout := base, false, 30*time.Second
+			if i > 0 {
+				blob, sk, timeout = alts[i-1].blob, skip, 2*time.Second
+				if len(blob) >= 12 && binary.BigEndian.Uint64(blob[4:]) > id {
+					timeout = 100 * time.Millisecond
+				}
+			}
+			ctx, cancel := context.WithTimeout(bg, timeout)
+			defer cancel()
+			res[i].hdr, res[i].err, res[i].panicked = deliver(r.st, ctx, blob, sk, false)
+		}(i)
+	}
+	done := make(chan struct{})
+	go func() { wg.Wait(); close(done) }()
+	select {
+	case <-done:
+	case <-time.After(roundLimit):
+		h.failf(r, nil, "%s did not terminate within %v", desc, roundLimit)
+	}
+	h.settle(r)
+	after := r.state()
+	dump := map[string]any{"honest": fmt.Sprintf("%x", base), "before": before.String(), "after": after.String()}
+	for i, a := range alts {
+		dump[fmt.Sprintf("altered%d", i)] = fmt.Sprintf("%x", a.blob)
+		dump[fmt.Sprintf("altered%d-result", i)] = fmt.Sprintf("%v", res[i+1].err)
+		if res[i+1].panicked {
+			h.c.Label("replicatetx-panic-(C16)")
+			vk.AddLabel("TestStoreReplication/panics-recovered-(C16)", 1)
+		}
+	}
+	dump["honest-result"] = fmt.Sprintf("%v", res[0].err)
+	if res[0].panicked {
+		h.failf(r, dump, "%s: ReplicateTx panicked on the honest export: %v", desc, res[0].err)
+	}
+	successes := 0
+	for _, o := range res {
+		if o.err == nil {
+			successes++
+		}
+	}
+	switch {
+	case after == before:
+		if successes > 0 {
+			h.failf(r, dump, "%s: %d deliveries returned success but the replica did not change", desc, successes)
+		}
+		windowFull := (r.cfg.Synced || r.cfg.ExternalAllow) && before.p-before.c >= uint64(r.cfg.MaxActiveTx) &&
+			(errors.Is(res[0].err, store.ErrMaxActiveTransactionsLimitExceeded) || errors.Is(res[0].err, store.ErrBufferIsFull))
+		if !windowFull {
+			h.failf(r, dump, "%s: the honest export of the next transaction was refused (%v) while altered copies of it were delivered", desc, res[0].err)
+		}
+		r.refused++
+		r.pendingRefusal = true
+		return
+	case after.p != before.p+1 || after.c < before.c || after.c > after.p:
+		h.failf(r, dump, "%s: the replica did not grow by exactly one transaction: before %s, after %s", desc, before, after)
+	}
+	if successes > 1 {
+		h.failf(r, dump, "%s: %d deliveries for tx %d returned success", desc, successes, id)
+	}
+	got, rerr := r.st.ReadTxHeader(after.p, true, false)
+	if rerr != nil {
+		h.failf(r, dump, "%s: tx %d cannot be read back with integrity checks: %v", desc, after.p, rerr)
+	}
+	if d := hdrDiff(got, t.hdr); d != "" {
+		// one of the altered copies won
+		if res[0].err == nil {
+			h.failf(r, dump, "%s: the honest delivery returned success but the stored tx %d differs from the primary's in: %s", desc, id, d)
+		}
+		switch {
+		case skip:
+			h.c.Label("altered-accepted-with-skipIntegrity")
+		case unbound && vk.Excluded(kfUnbound):
+			vk.CountExcluded(kfUnbound)
+			h.c.Label("altered-accepted-(" + kfUnbound + ")")
+		default:
+			h.failf(r, dump, "%s: an altered copy was ACCEPTED with integrity checks on; the replica's tx %d differs from the primary's in: %s", desc, id, d)
+		}
+		r.forgedAt = after.p
+		delete(r.forms, after.p)
+		h.divergenceEpilogue(r, after)
+		return
+	}
+	h.c.Label("race-honest-content-won")
+	r.setForm(id, form) // honest and altered copies derive from the same form
+	h.verifyTx(r, id, "after "+desc)
+	r.outOfOrder++
+	r.refused++ // at least one of the concurrent deliveries was refused
+	if r.pendingRefusal {
+		r.caughtUpAfterRefusal++
+		r.pendingRefusal = false
+	}
+	h.afterAccept(r, after)
 }
 
 // divergenceEpilogue: a replica whose last transaction is not the primary's must refuse the primary's next transactions
@@ -1521,6 +1687,9 @@ func (h *harness) compareProofs(r *replica) {
 		}
 		// inclusion of an entry proven by the replica against the primary's Eh
 		t := h.p.txs[j-1]
+		if len(t.x.entries) == 0 {
+			continue
+		}
 		e := t.x.entries[rapid.IntRange(0, len(t.x.entries)-1).Draw(rt, "proofEntry")]
 		holder := r.hold
 		if err := r.st.ReadTx(j, false, holder); err != nil {
@@ -1580,11 +1749,14 @@ func TestStoreReplication(t *testing.T) {
 			if r.retired {
 				continue
 			}
-			switch rapid.SampledFrom([]string{"round", "round", "round", "round", "altered", "altered", "altered", "discard", "allow", "reopen", "check"}).Draw(rt, "step") {
+			switch rapid.SampledFrom([]string{"round", "round", "round", "round", "altered", "altered", "altered", "altered-race", "discard", "allow", "reopen", "check"}).Draw(rt, "step") {
 			case "round":
 				h.round(r)
 			case "altered":
 				h.stepAltered(r)
+			case "altered-race":
+				h.stepAlteredRace(r)
+				c.Label("altered-race")
 			case "discard":
 				h.stepDiscard(r)
 			case "allow":
